@@ -87,7 +87,7 @@ def step(rng, pool):
 
     x = pool[int(rng.integers(len(pool)))]
     nd = x.ndim
-    op = str(rng.choice(["ew1", "ew2", "index", "reduce", "transpose", "reshape", "concat", "stack", "dot", "convert", "sort", "roll", "flip", "pad",
+    op = str(rng.choice(["ew1", "ew2", "index", "index", "reduce", "transpose", "reshape", "concat", "stack", "dot", "convert", "sort", "roll", "flip", "pad",
                          "bcast", "where", "astype", "triu", "diagonal", "expand", "squeeze", "round", "kron", "tensordot", "unique", "argmax", "nonzero", "dok_assign",
                          "create", "create", "like", "einsum", "einsum", "diagonalize", "tril", "moveaxis", "take", "matmul", "clip", "isnan", "mean", "cumulative"]))
     coo = x.asformat("coo") if not isinstance(x, sparse.COO) else x
@@ -181,6 +181,14 @@ def step(rng, pool):
             return f"{f.__name__}(x,y)", f(x, y)
         except ValueError:
             return f"{f.__name__}(x,x)", f(x, x)
+    if op == "index" and nd and rng.random() < 0.4:
+        # an index array or boolean mask on one axis, slices (negative steps too) on the others: the sorted= promise of getitem
+        ax = int(rng.integers(0, nd))
+        e = x.shape[ax]
+        if e:
+            arr = rng.integers(-e, e, size=int(rng.integers(1, 5))) if rng.random() < 0.7 else (rng.random(e) < 0.6)
+            idx = tuple(arr if i == ax else (slice(None, None, -1) if rng.random() < 0.5 else gen.rand_slice(rng, d)) for i, d in enumerate(x.shape))
+            return f"x[{'mask' if arr.dtype == bool else arr.tolist()}@{ax}, slices]", x[idx]
     if op == "index" and nd:
         idx = tuple(gen.rand_slice(rng, d) if rng.random() < 0.7 else (int(rng.integers(0, d)) if d else slice(None)) for d in x.shape[: int(rng.integers(1, nd + 1))])
         return f"x[{idx}]", x[idx]
